@@ -14,7 +14,7 @@ import tempfile
 HERE = os.path.dirname(os.path.dirname(os.path.abspath(__file__)))
 FAMILY = {
     "_hooks.py": ["C01", "C02", "C03", "C10", "C11", "C13", "C14", "C15", "C19"],
-    "types.py": ["C02", "C04", "C05", "C09", "C10", "C12", "C13", "C20"],
+    "types.py": ["C02", "C04", "C05", "C09", "C10", "C12", "C13", "C20", "C19"],
     "python/utils.py": ["C04", "C05", "C10", "C13"],
     "validators.py": ["C12", "C11"],
     "model.py": ["C18", "C16"],
